@@ -4,17 +4,24 @@ from harness.common.rng import Rng
 from harness.common import sim
 
 PROP = "C56"
-LEAN_MODULES = ["LunaVerif.Props.C56"]
+LEAN_MODULES = ["LunaVerif.Props.C56", "LunaVerif.Props.C56Stream"]
 DRIVER = "Driver/C56.lean"
 REQUIRED_THEOREMS = ["captures_depth_consecutive_samples", "readback_nth", "trigger_during_capture_ignored",
-                     "pretrigger_delay"]
+                     "pretrigger_delay", "stream_readout_exact", "stream_readout_complete",
+                     "stream_readout_returns_idle"]
 RULE = ("cases = (sample_depth in {1,2,5,32,100} (+3,4,7,8,16,33 thorough), samples_pretrigger 0..3, domain sync/usb, "
         "three captured signals of 1+8+5 bits) x pattern: triggers sparse / held high / bursts / random incl. during "
         "capture; inputs random every cycle or a counter; captured_sample_number sweeps and random reads, also while "
-        "capturing (read of a location in the cycle it is written)")
-ASSUMPTIONS = ["sample_depth >= 1", "captured_sample_number < sample_depth (addresses beyond a non-power-of-two depth are not driven)"]
-PARTIAL = ("only the IntegratedLogicAnalyzer core is modelled and proved; the read-out wrappers (SyncSerialILA, StreamILA, "
-           "AsyncSerialILA) are not covered")
+        "capturing (read of a location in the cycle it is written); kind 1 = StreamILA over the same depths / pre-trigger "
+        "counts x trigger patterns (also during capture and read-out, where they are blocked) x stream.ready patterns "
+        "(always / 50% / 20% / long on-off bursts / 85%), several captures and read-outs per case")
+ASSUMPTIONS = ["sample_depth >= 1", "captured_sample_number < sample_depth (addresses beyond a non-power-of-two depth are not driven)",
+               "StreamILA: o_domain == domain (no clock-domain-crossing FIFO between the read-out FSM and the stream)",
+               "stream_readout_exact: the trigger is seen in a wrapper-idle state (WIdle: holds at reset, is kept by idle "
+               "cycles and re-established by every read-out: init_WIdle, idle_step, stream_readout_returns_idle)"]
+PARTIAL = ("the IntegratedLogicAnalyzer core and the StreamILA read-out (same clock domain) are modelled and proved; "
+           "SyncSerialILA (SPI read-out), AsyncSerialILA (UART read-out) and StreamILA's optional AsyncFIFO to another "
+           "o_domain are not covered")
 
 WIDTHS = [1, 8, 5]
 TOTAL = sum(WIDTHS)
@@ -29,6 +36,14 @@ def gen_cases(tier, rng):
         for p in (0, 1, 2, 3):
             for _ in range(per):
                 out.append({"depth": D, "pre": p, "domain": "usb" if k % 5 == 4 else "sync", "seed": rng.u64(), "k": k})
+                k += 1
+    # StreamILA (kind 1): the same depths / pre-trigger counts, read out through the stream
+    sper = {"quick": 3, "widen": 6, "thorough": 12}[tier]
+    for D in depths:
+        for p in (0, 1, 2, 3):
+            for _ in range(sper):
+                out.append({"kind": 1, "depth": D, "pre": p, "domain": "usb" if k % 5 == 4 else "sync",
+                            "seed": rng.u64(), "k": k})
                 k += 1
     return out
 
@@ -117,6 +132,8 @@ def monitor(D, p, stim, rows):
 
 
 def run_case(desc):
+    if desc.get("kind", 0) == 1:
+        return run_stream_case(desc)
     from amaranth import Signal
     from luna.gateware.debug.ila import IntegratedLogicAnalyzer
     D, p, dom = desc["depth"], desc["pre"], desc.get("domain", "sync")
@@ -138,5 +155,156 @@ def run_case(desc):
             "captures>=2" if captures >= 2 else "captures<2", "trigger-ignored" if ignored else "no-ignored-trigger",
             "read-during-write" if rdw else "no-read-during-write",
             "complete-seen" if any(r[1] for r in rows) else "complete-never"]
-    return Case([D, p], stim, rows, fails, tags, desc, ["trigger", "inputs", "captured_sample_number"],
+    return Case([0, D, p], stim, rows, fails, ["kind=core"] + tags, desc, ["trigger", "inputs", "captured_sample_number"],
                 ["sampling", "complete", "captured_sample"])
+
+
+# ---------------------------------------------------------------------------------------------------------------
+# StreamILA: the captured samples read back through the stream interface
+# ---------------------------------------------------------------------------------------------------------------
+
+def make_stream_stimulus(D, p, rng, k):
+    L = 9 * D + 90 + rng.range(0, 30)
+    tmode = k % 4                 # trigger pattern
+    rmode = (k // 4) % 5          # ready pattern
+    imode = (k // 20) % 2
+    rows = []
+    burst = 0
+    rburst, rval = 0, 1
+    for t in range(L):
+        if tmode == 0:
+            trig = int(rng.chance(max(1, 100 // (D + 6))))
+        elif tmode == 1:
+            trig = 1
+        elif tmode == 2:
+            if burst > 0:
+                burst -= 1
+                trig = 1
+            else:
+                trig = 0
+                if rng.chance(8):
+                    burst = rng.range(1, D + 3)
+        else:
+            trig = int(rng.chance(40))
+        if t < 3 and rng.chance(50):
+            trig = 0
+        if rmode == 0:
+            ready = 1
+        elif rmode == 1:
+            ready = int(rng.chance(50))
+        elif rmode == 2:
+            ready = int(rng.chance(20))
+        elif rmode == 3:
+            if rburst == 0:
+                rval = 1 - rval
+                rburst = rng.range(1, 2 * D + 6)
+            rburst -= 1
+            ready = rval
+        else:
+            ready = int(rng.chance(85))
+        inputs = rng.bits(TOTAL) if imode == 0 else ((t * 37 + 5) & ((1 << TOTAL) - 1))
+        rows.append([trig, inputs, ready])
+    return rows
+
+
+def monitor_stream(D, p, stim, rows):
+    """The property on the real StreamILA trace: the words transferred on the stream (valid & ready) between an
+    accepted trigger and the next one are exactly the D consecutive (delayed) samples that followed the trigger,
+    in order, once, the first one flagged `first` and the last one `last`; none before the capture is complete,
+    none outside a read-out; and the read-out needs at most two ready cycles per word."""
+    fails = []
+
+    def fail(t, sig, what):
+        fails.append({"cycle": t, "sig": sig, "what": "StreamILA depth=%d pretrigger=%d cycle %d: %s" % (D, p, t, what)})
+
+    busy = False             # between an accepted trigger and the transfer of the last word
+    start = None             # first cycle of the capture
+    expected = []            # the samples of the capture in progress / being read out
+    sent = 0
+    complete = 0
+    readys = 0               # ready cycles since the read-out could begin
+    stats = {"captures": 0, "readouts": 0, "blocked": 0, "stalled_valid": 0, "max_sent": 0}
+    for t, (i, o) in enumerate(zip(stim, rows)):
+        trig, ready = i[0] & 1, i[2] & 1
+        sampling, cpl, valid, payload, first, last = o
+        capturing = busy and start <= t < start + D
+        delayed = stim[t - p][1] if t - p >= 0 else 0
+        if sampling != int(capturing):
+            fail(t, "stream-sampling-window", "sampling=%d requires %d" % (sampling, int(capturing)))
+            break
+        if cpl != complete:
+            fail(t, "stream-complete-flag", "complete=%d requires %d" % (cpl, complete))
+            break
+        xfer = valid and ready
+        done_now = False
+        if valid and not ready:
+            stats["stalled_valid"] += 1
+        if xfer:
+            if not busy:
+                fail(t, "stream-spurious-word", "word %#x transferred although no read-out is in progress" % payload)
+                break
+            if t < start + D:
+                fail(t, "stream-word-before-complete", "word transferred while the capture is still running")
+                break
+            if payload != expected[sent]:
+                fail(t, "stream-payload", "word %d of the read-out is %#x, the recorded sample %d is %#x"
+                     % (sent, payload, sent, expected[sent]))
+                break
+            if first != int(sent == 0):
+                fail(t, "stream-first-flag", "first=%d on word %d" % (first, sent))
+                break
+            if last != int(sent == D - 1):
+                fail(t, "stream-last-flag", "last=%d on word %d of %d" % (last, sent, D))
+                break
+            sent += 1
+            stats["max_sent"] = max(stats["max_sent"], sent)
+            if sent == D:
+                done_now = True
+        if busy and t > start + D:
+            readys += ready
+            if sent < min(D, readys // 2):
+                fail(t, "stream-progress", "%d ready cycles since the read-out began but only %d words transferred"
+                     % (readys, sent))
+                break
+        # clock edge at the end of cycle t
+        if capturing:
+            expected.append(delayed)
+            if t - start == D - 1:
+                complete = 1
+        if busy and trig:
+            stats["blocked"] += 1
+        if done_now:
+            busy = False
+            stats["readouts"] += 1
+        elif not busy and trig:
+            busy, start, expected, sent, complete, readys = True, t + 1, [], 0, 0, 0
+            stats["captures"] += 1
+    return fails, stats
+
+
+def run_stream_case(desc):
+    from amaranth import Signal
+    from luna.gateware.debug.ila import StreamILA
+    D, p, dom = desc["depth"], desc["pre"], desc.get("domain", "sync")
+    sigs = [Signal(w, name="probe%d" % j) for j, w in enumerate(WIDTHS)]
+    dut = StreamILA(signals=sigs, sample_depth=D, samples_pretrigger=p, domain=dom)
+    stim = desc.get("stimulus") or make_stream_stimulus(D, p, Rng(desc["seed"]), desc.get("k", 0))
+    stim = [[r[0] & 1, r[1] & ((1 << TOTAL) - 1), r[2] & 1] for r in stim]
+    sim_rows = []
+    for r in stim:
+        v, fields = r[1], []
+        for w in WIDTHS:
+            fields.append(v & ((1 << w) - 1))
+            v >>= w
+        sim_rows.append([r[0]] + fields + [r[2]])
+    st = dut.stream
+    rows = sim.run_cycles(dut, [dut.trigger] + sigs + [st.ready],
+                          [dut.sampling, dut.complete, st.valid, st.payload, st.first, st.last], sim_rows, domain=dom)
+    fails, stats = monitor_stream(D, p, stim, rows)
+    tags = ["kind=stream", "s-depth=%d" % D if D <= 5 else "s-depth>5", "s-pre=%d" % p, "s-domain=" + dom,
+            "s-readouts>=2" if stats["readouts"] >= 2 else "s-readouts=%d" % stats["readouts"],
+            "s-trigger-blocked" if stats["blocked"] else "s-no-blocked-trigger",
+            "s-valid-stalled" if stats["stalled_valid"] else "s-never-stalled",
+            "s-partial-readout-at-end" if 0 < stats["max_sent"] and stats["captures"] > stats["readouts"] else "s-clean-end"]
+    return Case([1, D, p], stim, rows, fails, tags, desc, ["trigger", "inputs", "stream.ready"],
+                ["sampling", "complete", "stream.valid", "stream.payload", "stream.first", "stream.last"])
